@@ -14,7 +14,7 @@ RULE = ("Engine S: Hypothesis-generated operation histories (reserve_put/put/res
 ASSUMPTIONS = ["acting as a process by setting env._active_proc (what simpy.Process._resume does)",
                "held items read from the public lists items / ready_items"]
 
-WEIGHTS = {"rp": 8, "rg": 3, "put": 8, "get": 3, "cp": 3, "cg": 1, "settle": 2, "adv": 3}
+WEIGHTS = {"rp": 8, "rg": 3, "put": 8, "get": 3, "cp": 3, "cg": 1, "settle": 2, "adv": 3, "peek": 1}
 CLASSES = gen_store.ALL_PLAIN + gen_store.BELTS
 
 
@@ -23,7 +23,7 @@ def examples(tier):
 
 
 def strategy(tier):
-    return gen_store.case(CLASSES, WEIGHTS, max_ops=40, macros=4, extra=4)
+    return gen_store.case(CLASSES, WEIGHTS, max_ops=40, macros=4, extra=6)
 
 
 class CapacityOracle(Oracle):
